@@ -14,12 +14,13 @@ Stages:
 """
 import json
 import math
+import os
 import re
 
 import numpy as np
 from scipy.spatial.transform import Rotation as R
 
-from harness.common import run_guarded
+from harness.common import run_guarded, COQ
 from harness import c14_quad as Q
 
 import magpylib as magpy
@@ -452,6 +453,8 @@ def threading_current(scene, geom):
 FLOOR = {("flux", False): 2e-6, ("flux", True): 1e-3, ("circ", False): 2e-6, ("circ", True): 3e-3}
 CLEAR = 0.04       # minimal distance from conductors / dipoles, relative to min(test size, source size)
 INCONCLUSIVE = 1e-2
+NOISE = 1e-11        # see evaluate()
+MU0 = 4e-7 * math.pi
 
 
 def case_cost(case):
@@ -480,7 +483,7 @@ def touches_magnet(scene, geom):
     return False
 
 
-def evaluate(case, seconds=1.5):
+def evaluate(case, seconds=1.5, min_evals=2e4):
     """returns dict(status, value, expected, err, scale, ...); status in ok | fail | inconclusive | skipped"""
     scene = Scene(case)
     geom = Geom(case["geom"])
@@ -496,7 +499,7 @@ def evaluate(case, seconds=1.5):
         F = scene.field(which, P)
         return np.einsum("ij,ij->i", F, dA), np.linalg.norm(F, axis=1)
 
-    max_evals = int(min(3e6, max(2e4, seconds / case_cost(case))))
+    max_evals = int(min(3e6, max(min_evals, seconds / case_cost(case))))
     if geom.dim == 1:
         init = max(8, 512 // geom.npatch) if cut else max(8, 64 // geom.npatch)
     else:
@@ -522,7 +525,12 @@ def evaluate(case, seconds=1.5):
     if res.err > INCONCLUSIVE * scale:
         out["status"] = "inconclusive"
         return out
-    thr = 3.0 * res.err + FLOOR[(law, cut)] * scale
+    # binary64 cancellation noise of the magnet formulas far from the body: absolute, relative to the
+    # field scale AT the magnet (|J| for B, |J|/mu0 for H), not to the (tiny) far field
+    near = sum(float(np.linalg.norm(s["polarization"])) for s in case["sources"] if s["type"] in MAGNETS)
+    if which == "H":
+        near /= MU0
+    thr = 3.0 * res.err + FLOOR[(law, cut)] * scale + NOISE * near * geom.measure
     out["rel"] = abs(res.value - expected) / scale
     out["thr_rel"] = thr / scale
     out["status"] = "fail" if abs(res.value - expected) > thr else "ok"
@@ -542,11 +550,11 @@ def signature(case, res):
     return f"{clause}/{types}:{placement_class(case, res)}"
 
 
-def shrink_case(case, seconds):
+def shrink_case(case, seconds, min_evals=2e4):
     """smaller failing case: single sources, no collection pose, identity source pose"""
     def fails(c):
         try:
-            return evaluate(c, seconds)["status"] == "fail"
+            return evaluate(c, seconds, min_evals)["status"] == "fail"
         except Exception:   # pylint: disable=broad-except
             return False
     cur = case
@@ -646,7 +654,7 @@ def gen_special_case(rng, law, kind):
     return None
 
 
-def sweep(ctx, n_per_kind, n_coll, seconds, n_special=0):
+def sweep(ctx, n_per_kind, n_coll, seconds, n_special=0, min_evals=2e4):
     rng = ctx.rng
     plan = []
     for kind in KINDS:
@@ -674,7 +682,7 @@ def sweep(ctx, n_per_kind, n_coll, seconds, n_special=0):
             ctx.bump("generation-gave-up")
             continue
         try:
-            res = evaluate(case, seconds)
+            res = evaluate(case, seconds, min_evals)
         except FieldRaised as e:
             # an exception of getB/getH on a valid input is not a statement about flux or circulation
             # (C15/C17 territory): counted and noted, never an alarm of this property
@@ -701,16 +709,22 @@ def sweep(ctx, n_per_kind, n_coll, seconds, n_special=0):
             ratio = float(res.get("rel", 0.0)) / res["thr_rel"] if res.get("thr_rel") else 0.0
             wr = ctx.extra.setdefault("worst_residual_over_threshold", {})
             name = f"{law}:{'cut' if res['cut'] else 'free'}"
-            wr[name] = max(wr.get(name, 0.0), ratio)
+            if ratio > wr.get(name, 0.0):
+                wr[name] = ratio
+                ctx.extra.setdefault("worst_cases", {})[name] = {
+                    "sources": [x["type"] for x in case["sources"]], "geom": case["geom"]["kind"],
+                    "place": case.get("place"), "size_factor": case["size_factor"],
+                    "residual_rel": float(res["rel"]), "threshold_rel": float(res["thr_rel"]),
+                    "quadrature_error_rel": float(res["err"] / res["scale"]), "links": res.get("links")}
         ctx.count("field_evaluations", res.get("evals", 0))
         if st == "fail":
             # confirm with a four times larger quadrature budget before believing it
-            res = evaluate(case, 4 * seconds)
+            res = evaluate(case, 4 * seconds, 4 * min_evals)
             if res["status"] != "fail":
                 ctx.bump(f"{law}:not-confirmed-with-larger-budget")
                 continue
-            small = shrink_case(case, seconds)
-            r2 = evaluate(small, seconds)
+            small = shrink_case(case, 4 * seconds, 4 * min_evals)
+            r2 = evaluate(small, 4 * seconds, 4 * min_evals)
             if r2["status"] != "fail":
                 small, r2 = case, res
             ctx.impl_fail(signature(small, r2),
@@ -807,7 +821,7 @@ def gen_rows(rng, n):
                 vs.append(list(vs[0]))
             if rng.random() < 0.15:
                 vs.insert(1, list(vs[0]))     # a zero-length segment inside the chain
-            rows.append(("polysum", "H", [dy(rng) for _ in range(3)], vs, dy(rng, -10, 10)))
+            rows.append(("polysum", fld, [dy(rng) for _ in range(3)], vs, dy(rng, -10, 10)))
         else:
             d = rng.uniform(0.2, 5) * rng.choice([1, 1, -1])
             cur = dy(rng, -10, 10)
@@ -841,7 +855,7 @@ def impl_row(row):
                                                     np.array([row[5]], dtype=float))[0]
         return [None] + list(v)
     if which == "polysum":
-        v = field_BH_polyline.current_vertices_field("H", np.array([row[2]], dtype=float),
+        v = field_BH_polyline.current_vertices_field(fld, np.array([row[2]], dtype=float),
                                                      np.array([row[4]], dtype=float),
                                                      vertices=np.array([row[3]], dtype=float))[0]
         return [float(len(row[3]))] + list(v)
@@ -860,7 +874,8 @@ def coq_row(row):
         return (f"run14_polyline {fld} {fhex(field_BH_polyline.MU0)} {fv(row[2])} {fv(row[3])} {fv(row[4])} "
                 f"{fhex(row[5])}")
     if which == "polysum":
-        return f"run14_polysum {fhex(row[4])} [{'; '.join(fv(v) for v in row[3])}] {fv(row[2])}"
+        return (f"run14_polysum {fld} {fhex(field_BH_polyline.MU0)} {fhex(row[4])} "
+                f"[{'; '.join(fv(v) for v in row[3])}] {fv(row[2])}")
     return f"run14_circle {fld} {fhex(field_BH_circle.MU0)} {fv(row[2])} {fhex(row[3])} {fhex(row[4])}"
 
 
@@ -874,7 +889,13 @@ def correspondence(ctx, n):
     rows = gen_rows(ctx.rng, n)
     impl = [impl_row(r) for r in rows]
     txt = CASES_HEADER + "Eval vm_compute in [\n " + ";\n ".join(coq_row(r) for r in rows) + "].\n"
-    ok, out = ctx.coq_eval(f"c14_{ctx.tier}", txt)
+    name = f"c14_{ctx.tier}_{os.getpid()}"       # concurrent checks must not share the cases file
+    ok, out = ctx.coq_eval(name, txt)
+    for ext in (".v", ".vo", ".vok", ".vos", ".glob"):
+        try:
+            os.remove(os.path.join(COQ, "Cases", name + ext))
+        except OSError:
+            pass
     if not ok:
         ctx.add_broken("broken-correspondence", "c14 model evaluation", out[-1500:])
         return
@@ -926,7 +947,7 @@ def run(ctx):
     ]
     ctx.partial += ["C14_dipole_source_free_partial", "C14_sphere_exterior_source_free_partial",
                     "C14_sphere_interior_source_free_partial", "C14_circle_axis_ampere_partial",
-                    "C14_closed_polyline_source_free_partial"]
+                    "C14_closed_polyline_source_free_partial", "C14_closed_polyline_B_source_free_partial"]
     built = ctx.build_props()
     if ctx.tier == "thorough" and built:
         ctx.coqchk("MV.Props.C14")
@@ -935,14 +956,14 @@ def run(ctx):
     big = bool(ctx.broken)
     mult = 4 if big else 1
     run_guarded(ctx, lambda: sweep(ctx, ctx.n(12, 100) * mult, ctx.n(40, 300) * mult, ctx.n(0.5, 1.5),
-                                   ctx.n(3, 20) * mult),
+                                   ctx.n(3, 20) * mult, ctx.n(2e4, 4e4)),
                 "C14 quadrature sweep")
 
 
 def replay(ctx, obj):
     rp = obj.get("replay", obj)
     if rp.get("kind") == "c14-case":
-        res = evaluate(rp["case"], 5.0)
+        res = evaluate(rp["case"], 6.0, 1e5)
         print("replay:", json.dumps({k: v for k, v in res.items()}, default=str))
         if res["status"] == "fail":
             print(f"VIOLATION property=C14 replay={obj.get('how_to_rerun', '').split()[-1] or 'given'}")
